@@ -6,6 +6,33 @@ import os
 ROOT = os.path.dirname(os.path.dirname(os.path.abspath(__file__)))
 BASELINE = "cd /repo && /venv/bin/python -m pytest -ra -q -p no:cacheprovider --timeout=900 --continue-on-collection-errors"
 
+# growth lanes outside the listed properties (DESIGN.md 10.14): slug, title, what
+EXTRAS = [
+    ("bimgrom", "bootable image || boot ROM",
+     "spec/SYS/BimgRom.tla: the ROM reads the merged image at ITS table offsets and the container found there walks the acceptance automaton of its kind "
+     "(BimgRomTrace INSTANCEs MbiRom / AhabRom / HabRom of C02 / C06 / C07 unchanged) + address clauses; BimgRomMC refutes four wrong placements"),
+    ("dk6", "DK6 ISP protocol",
+     "spec/SYS/Dk6Dev.tla (frame grammar with CRC-32 in TLA+, request/response pairing, memory-handle state machine) || faulty link || host (Dk6.tla, host as built refuted); "
+     "Dk6Trace validates sessions of the real DK6Device / dk6prog over a device twin"),
+    ("lpcprog", "LPC ISP text protocol",
+     "spec/SYS/LpcIsp.tla (synchronisation, echo, command grammar, return codes, sector/page model), LpcIspMC (line discipline under lost / late answers: host as built refuted), "
+     "LpcIspFlow (write-to-flash flow), LpcIspTrace validates the real LPCProgProtocol / lpcprog over a device twin"),
+    ("sb1", "Secure Binary 1.x",
+     "spec/SYS/Sb1Rom.tla: loader acceptance automaton (header digest, section table, boot-tag chain, command checksums, final digest); Sb1RomMC refutes builder and reader as built; "
+     "Sb1RomTrace validates an independent executor's walk over the bytes SecureBootV1 exports, tampered files must be rejected"),
+    ("sbx", "SB-X container and DevHSM exchange",
+     "spec/SYS/SbxRom.tla (loader automaton + contract of one DevHSM run), SbxDev.tla (device side), SbxFlow.tla (design model, flow as built refuted twice); "
+     "SbxRomTrace validates exports and DevHSM runs of the real code against a device twin below the HID framing"),
+    ("ele", "EdgeLock Enclave messaging",
+     "spec/SYS/EleMsg.tla (firmware side: 28 message classes, every request word and CRC recomputed), EleMsgFlow.tla (device || bootloader || host, host as built refuted three times); "
+     "EleMsgTrace validates exchanges of the real EleMessageHandlerMBoot / nxpele over a packet-level bootloader twin"),
+    ("signedmsg", "AHAB signed messages",
+     "spec/SYS/SignedMsg*.tla: acceptance automaton of the ELE for signed messages (container header, SRK table hash, signature coverage, per-type payload layouts); "
+     "trace form validates an independent executor's walk over the bytes SPSDK exports"),
+    ("fuses", "fuse programming",
+     "spec/SYS/Fuses*.tla: OTP array (monotone bits, locks) || host flow as built; trace form validates the real Fuses / FuseOperator / fuse script against a device twin"),
+]
+
 # id -> (technique, level text, level note, design ref)
 CHECKS = {}
 
@@ -375,6 +402,15 @@ def main():
                 "serves_properties": [],
                 "kind_free_text": "spec/SYS/DbgMbox.tla: design model device || DebugMailboxCommand.run as built || failing probe, model checked (host as built refuted); spec/SYS/DbgMboxTrace.tla: register accesses of the real code through a probe twin validated by TLC; results in evidence/extras/sys_dbgmbox.json",
             },
+        ] + [
+            {
+                "name": f"extras: {title} (./check sys_{slug}; not a listed property, observations only, always exit 0 unless the machinery fails)",
+                "path": f"/verif/harness/sys_{slug}.py",
+                "serves_properties": [],
+                "kind_free_text": text + f"; results in evidence/extras/sys_{slug}.json, write-up tools/findings/SYS-{slug}.md",
+            }
+            for slug, title, text in EXTRAS
+            if os.path.exists(os.path.join(ROOT, "harness", f"sys_{slug}.py"))
         ],
         "checks": checks,
         "not_applicable": na,
